@@ -4,18 +4,39 @@
 //!
 //! Node weight = label (unique, never reused); edge weight = unique counter for edges added by ops.
 //! Calls with an absent endpoint run on a clone that is dropped (a documented panic may leave the
-//! object in an unspecified state); everything else runs on the object itself, including
-//! `Build::update_edge` whose cycle rejection is a panic.
+//! object in an unspecified state); so do insertions into an inner graph that is full (`… full`: the
+//! inner graph's `add_edge` panics at the index limit, after `Acyclic` has already reordered); everything
+//! else runs on the object itself, including `Build::update_edge` whose cycle rejection is a panic.
+//!
+//! Wave 6 (corners):
+//! * two objects per case: `snap` (other = clone), `swap` (mem::swap), `clonefrom in|out` (`clone_from` onto
+//!   an arbitrary prior value), `take` (`mem::take`: a `Default` object in the middle of a history) — the
+//!   driver keeps the mirror state of both, so "clone, then mutate both" is judged like everything else;
+//! * `law <name> => ok | VIOLATED <why>` lines: the rest of the public surface (iterator laws of
+//!   `nodes_iter` / `range` and of every pass-through iterator, the pass-through traits against `inner()`,
+//!   `Clone`/`clone_from`/`Default`/`Debug`/`into_inner`/`Deref`, `DataMapMut`, petgraph's own algorithms,
+//!   walkers and adaptors on `&Acyclic<G>` against the same on `inner()`), judged in the harness against
+//!   the implementation itself; the driver expects `ok`;
+//! * corner inputs: empty / single-node / all-vacant graphs handed to `try_from_graph`, StableGraphs with
+//!   several trailing vacancies in every free-list order, index widths u8 / u16 / u32 / usize, inner graphs
+//!   at the edge limit of u8 (`fam=ecap`) and at the node limit of u8 (`fam=ncap`, reduced dump),
+//!   large `with_capacity`, `is_valid_edge` with absent endpoints (`validx`, on a clone, exact only).
 use crate::common::*;
 use crate::graphs::*;
 use crate::rng::Rng;
 use petgraph::acyclic::{Acyclic, AcyclicEdgeError, TopologicalPosition};
-use petgraph::data::{Build, Create};
+use petgraph::algo::{is_cyclic_directed, toposort, DfsSpace};
+use petgraph::data::{Build, Create, DataMap, DataMapMut};
 use petgraph::graph::{DiGraph, EdgeIndex, IndexType, NodeIndex};
 use petgraph::stable_graph::StableDiGraph;
-use petgraph::visit::{EdgeRef, IntoEdgeReferences, NodeIndexable};
+use petgraph::visit::{
+    depth_first_search, Bfs, Control, Dfs, DfsEvent, DfsPostOrder, EdgeCount, EdgeFiltered, EdgeIndexable, EdgeRef, GetAdjacencyMatrix, GraphProp,
+    IntoEdgeReferences, IntoEdges, IntoEdgesDirected, IntoNeighbors, IntoNeighborsDirected, IntoNodeIdentifiers, IntoNodeReferences, NodeCount,
+    NodeFiltered, NodeIndexable, Reversed, Topo, VisitMap, Visitable,
+};
 use petgraph::{Directed, Direction};
 use std::convert::TryFrom;
+use std::fmt::Debug;
 use std::ops::Bound;
 
 fn pv(p: TopologicalPosition) -> usize {
@@ -50,8 +71,351 @@ fn gen_bound(rng: &mut Rng, hi: usize) -> Bound<TopologicalPosition> {
     }
 }
 
+/// does `BTreeMap::range` panic on these bounds (when the map has a root)?
+fn inverted(lo: &Bound<TopologicalPosition>, hb: &Bound<TopologicalPosition>) -> bool {
+    match (lo, hb) {
+        (Bound::Included(a) | Bound::Excluded(a), Bound::Included(b) | Bound::Excluded(b)) => {
+            pv(*a) > pv(*b) || (pv(*a) == pv(*b) && matches!(lo, Bound::Excluded(_)) && matches!(hb, Bound::Excluded(_)))
+        }
+        _ => false,
+    }
+}
+
+// ------------------------------------------------------------------------------------------------
+// iterator laws over a FACTORY (`nodes_iter` / `range` are `impl Iterator`, not `Clone`): the same laws as
+// `crate::iterlaws` with `mk()` in place of `it.clone()`
+
+fn positions(len: usize) -> Vec<usize> {
+    let mut v = vec![0, 1, 2, len / 2, len.saturating_sub(1), len, len + 1];
+    v.sort();
+    v.dedup();
+    v
+}
+
+fn laws_it<I, F>(mk: F) -> Option<String>
+where
+    F: Fn() -> I,
+    I: Iterator,
+    I::Item: PartialEq + Debug,
+{
+    let v: Vec<I::Item> = mk().collect();
+    let n = v.len();
+    let (lo, hi) = mk().size_hint();
+    if lo > n {
+        return Some(format!("size_hint lower bound {} but {} items are yielded", lo, n));
+    }
+    if let Some(h) = hi {
+        if h < n {
+            return Some(format!("size_hint upper bound {} but {} items are yielded", h, n));
+        }
+    }
+    if mk().collect::<Vec<_>>() != v {
+        return Some("two iterations yield different sequences".to_string());
+    }
+    let c = mk().count();
+    if c != n {
+        return Some(format!("count() = {} but {} items are yielded", c, n));
+    }
+    if mk().last() != mk().collect::<Vec<_>>().pop() {
+        return Some("last() is not the last item yielded".to_string());
+    }
+    for k in positions(n) {
+        let mut a = mk();
+        let got = a.nth(k);
+        let mut b = mk();
+        let mut want = None;
+        for _ in 0..=k {
+            want = b.next();
+            if want.is_none() {
+                break;
+            }
+        }
+        if got != want {
+            return Some(format!("nth({}) = {:?}, stepping with next gives {:?}", k, got, want));
+        }
+        let ra: Vec<I::Item> = a.collect();
+        let rb: Vec<I::Item> = b.collect();
+        if ra != rb {
+            return Some(format!("after nth({}) the remaining items are {:?}, after {} x next they are {:?}", k, ra, k + 1, rb));
+        }
+        let mut m = mk();
+        for _ in 0..k.min(n) {
+            m.next();
+        }
+        let rest = n - k.min(n);
+        let (lo, hi) = m.size_hint();
+        if lo > rest || hi.map_or(false, |h| h < rest) {
+            return Some(format!("after {} items size_hint = ({}, {:?}) but {} items remain", k.min(n), lo, hi, rest));
+        }
+        let s: Vec<I::Item> = mk().skip(k).collect();
+        if s.len() != rest || s[..] != v[k.min(n)..] {
+            return Some(format!("skip({}) yields {:?}, expected the last {} items of {:?}", k, s, rest, v));
+        }
+    }
+    for step in [2usize, 3] {
+        let s: Vec<I::Item> = mk().step_by(step).collect();
+        let w: Vec<I::Item> = mk().enumerate().filter(|(i, _)| i % step == 0).map(|(_, x)| x).collect();
+        if s != w {
+            return Some(format!("step_by({}) yields {:?}, every {}th item is {:?}", step, s, step, w));
+        }
+    }
+    let f = mk().fold(0usize, |acc, _| acc + 1);
+    if f != n {
+        return Some(format!("fold visits {} items, next visits {}", f, n));
+    }
+    let mut e = mk();
+    for _ in 0..n {
+        e.next();
+    }
+    if e.next().is_some() || e.next().is_some() {
+        return Some("an item is yielded after the sequence ended".to_string());
+    }
+    None
+}
+
+fn laws_de<I, F>(mk: F) -> Option<String>
+where
+    F: Fn() -> I,
+    I: DoubleEndedIterator,
+    I::Item: PartialEq + Debug,
+{
+    if let Some(e) = laws_it(&mk) {
+        return Some(e);
+    }
+    let v: Vec<I::Item> = mk().collect();
+    let n = v.len();
+    let mut r: Vec<I::Item> = mk().rev().collect();
+    r.reverse();
+    if r != v {
+        return Some(format!("rev() yields (reversed back) {:?}, forward iteration yields {:?}", r, v));
+    }
+    for k in positions(n) {
+        let mut a = mk();
+        let got = a.nth_back(k);
+        let mut b = mk();
+        let mut want = None;
+        for _ in 0..=k {
+            want = b.next_back();
+            if want.is_none() {
+                break;
+            }
+        }
+        if got != want {
+            return Some(format!("nth_back({}) = {:?}, stepping with next_back gives {:?}", k, got, want));
+        }
+        let ra: Vec<I::Item> = a.collect();
+        let rb: Vec<I::Item> = b.collect();
+        if ra != rb {
+            return Some(format!("after nth_back({}) the remaining items are {:?}, after {} x next_back they are {:?}", k, ra, k + 1, rb));
+        }
+        let mut m = mk();
+        let mut front: Vec<I::Item> = Vec::new();
+        for _ in 0..k.min(n) {
+            if let Some(x) = m.next() {
+                front.push(x);
+            }
+        }
+        let mut back: Vec<I::Item> = Vec::new();
+        while let Some(x) = m.next_back() {
+            back.push(x);
+        }
+        back.reverse();
+        front.extend(back);
+        if front != v {
+            return Some(format!("{} x next then next_back to the end yields {:?}, the sequence is {:?}", k.min(n), front, v));
+        }
+    }
+    let rf = mk().rfold(0usize, |acc, _| acc + 1);
+    if rf != n {
+        return Some(format!("rfold visits {} items, next visits {}", rf, n));
+    }
+    None
+}
+
+fn laws_exact<I, F>(mk: F) -> Option<String>
+where
+    F: Fn() -> I,
+    I: ExactSizeIterator,
+    I::Item: PartialEq + Debug,
+{
+    let n = mk().count();
+    let mut m = mk();
+    for k in 0..=n {
+        if m.len() != n - k {
+            return Some(format!("len() = {} after {} of {} items", m.len(), k, n));
+        }
+        let (lo, hi) = m.size_hint();
+        if lo != n - k || hi != Some(n - k) {
+            return Some(format!("size_hint = ({}, {:?}) after {} of {} items of an ExactSizeIterator", lo, hi, k, n));
+        }
+        m.next();
+    }
+    None
+}
+
+fn verdict_of(r: Option<String>) -> String {
+    match r {
+        None => "ok".to_string(),
+        Some(e) => format!("VIOLATED {}", e.replace('\n', " ").replace(" => ", " -> ")),
+    }
+}
+
+/// first failing law of a list of `(what, result)`
+fn first_bad(rs: Vec<(String, Option<String>)>) -> Option<String> {
+    rs.into_iter().find_map(|(w, r)| r.map(|e| format!("{}: {}", w, e)))
+}
+
+fn same<T: PartialEq + Debug>(what: &str, a: T, b: T) -> Option<String> {
+    if a == b {
+        None
+    } else {
+        Some(format!("{}: {:?} through Acyclic, {:?} through inner()", what, a, b))
+    }
+}
+
+// ------------------------------------------------------------------------------------------------
+// petgraph's own walkers / visitors on a graph view: a signature string, compared between `&Acyclic<G>`
+// (and adaptors over it) and `inner()` (and the same adaptors over it)
+
+fn walk_sig<G>(g: G, starts: &[G::NodeId]) -> String
+where
+    G: IntoNeighbors + Visitable + Copy,
+    G::NodeId: Copy + Debug + PartialEq,
+{
+    let mut out = String::new();
+    // one walker re-used through reset + move_to (it was made by `empty`), and fresh ones
+    let mut reused = Dfs::empty(g);
+    let mut reused_po = DfsPostOrder::empty(g);
+    for &s in starts {
+        let mut d = Dfs::new(g, s);
+        out.push_str("D");
+        while let Some(n) = d.next(g) {
+            out.push_str(&format!("{:?};", n));
+        }
+        reused.reset(g);
+        reused.move_to(s);
+        out.push_str("d");
+        while let Some(n) = reused.next(g) {
+            out.push_str(&format!("{:?};", n));
+        }
+        let mut b = Bfs::new(g, s);
+        out.push_str("B");
+        while let Some(n) = b.next(g) {
+            out.push_str(&format!("{:?};", n));
+        }
+        let mut p = DfsPostOrder::new(g, s);
+        out.push_str("P");
+        while let Some(n) = p.next(g) {
+            out.push_str(&format!("{:?};", n));
+        }
+        reused_po.reset(g);
+        reused_po.move_to(s);
+        out.push_str("p");
+        while let Some(n) = reused_po.next(g) {
+            out.push_str(&format!("{:?};", n));
+        }
+    }
+    out
+}
+
+/// `depth_first_search` with the four visitor return types; `k` = the event at which the visitor breaks / fails
+fn dfs_sig<G>(g: G, starts: &[G::NodeId], k: usize) -> String
+where
+    G: IntoNeighbors + Visitable + Copy,
+    G::NodeId: Copy + Debug + PartialEq,
+{
+    let mut out = String::new();
+    let prunable = |e: &DfsEvent<G::NodeId>| !matches!(e, DfsEvent::Finish(..));
+    // ()
+    depth_first_search(g, starts.iter().copied(), |e| {
+        out.push_str(&format!("{:?};", e));
+    });
+    out.push('|');
+    // Control<usize>
+    let mut c = 0usize;
+    let r: Control<usize> = depth_first_search(g, starts.iter().copied(), |e| {
+        c += 1;
+        out.push_str(&format!("{:?};", e));
+        if c == k {
+            Control::Break(c)
+        } else if c % 3 == 0 && prunable(&e) {
+            Control::Prune
+        } else {
+            Control::Continue
+        }
+    });
+    out.push_str(&format!("={:?}|", r.break_value()));
+    // Result<Control<usize>, String>
+    let mut c = 0usize;
+    let r: Result<Control<usize>, String> = depth_first_search(g, starts.iter().copied(), |e| {
+        c += 1;
+        out.push_str(&format!("{:?};", e));
+        if c == k {
+            Err(format!("E{}", c))
+        } else if c == 2 * k {
+            Ok(Control::Break(c))
+        } else if c % 4 == 0 && prunable(&e) {
+            Ok(Control::Prune)
+        } else {
+            Ok(Control::Continue)
+        }
+    });
+    out.push_str(&format!("={:?}|", r.map(|c| c.break_value())));
+    // Result<(), String>
+    let mut c = 0usize;
+    let r: Result<(), String> = depth_first_search(g, starts.iter().copied(), |e| {
+        c += 1;
+        out.push_str(&format!("{:?};", e));
+        if c == k + 1 {
+            Err(format!("E{}", c))
+        } else {
+            Ok(())
+        }
+    });
+    out.push_str(&format!("={:?}", r));
+    out
+}
+
+fn topo_walk<G>(g: G) -> Vec<G::NodeId>
+where
+    G: IntoNeighborsDirected + IntoNodeIdentifiers + Visitable + Copy,
+    G::NodeId: Copy,
+{
+    let mut t = Topo::new(g);
+    let mut v = Vec::new();
+    while let Some(n) = t.next(g) {
+        v.push(n);
+    }
+    v
+}
+
+/// is `order` (concrete indices) a topological order of `edges` over exactly `nodes`?
+fn topo_ok(order: &[usize], nodes: &[usize], edges: &[(usize, usize)]) -> Option<String> {
+    let mut o = order.to_vec();
+    o.sort();
+    let mut n = nodes.to_vec();
+    n.sort();
+    if o != n {
+        return Some(format!("lists {:?}, the live nodes are {:?}", order, nodes));
+    }
+    let at = |x: usize| order.iter().position(|&y| y == x).unwrap();
+    for &(a, b) in edges {
+        if at(a) >= at(b) {
+            return Some(format!("edge {}->{} goes backwards in {:?}", a, b, order));
+        }
+    }
+    None
+}
+
+#[derive(Clone, Copy, PartialEq)]
+enum Fam {
+    Normal,
+    ECap,
+    NCap,
+}
+
 macro_rules! vertical {
-    ($run:ident, $view:ident, $dump:ident, $G:ident, $stable:expr, $mk:ident, $free:ident) => {
+    ($run:ident, $view:ident, $dump:ident, $obs:ident, $laws:ident, $G:ident, $stable:expr, $mk:ident, $free:ident, $exact:ident) => {
         /// the inner graph as a `graph` line, all ids concrete; `lab=` maps index -> node weight
         fn $view<Ix: IndexType>(g: &$G<usize, i64, Ix>) -> String {
             let nodes: Vec<NodeIndex<Ix>> = g.node_indices().collect();
@@ -78,7 +442,52 @@ macro_rules! vertical {
             )
         }
 
-        fn $dump<Ix: IndexType>(ctx: &mut Ctx, rng: &mut Rng, acy: &Acyclic<$G<usize, i64, Ix>>) {
+        /// everything observable of an `Acyclic` (harness-side comparisons of two objects); `pairs` = false
+        /// leaves out the quadratic `is_valid_edge` table
+        fn $obs<Ix: IndexType>(acy: &Acyclic<$G<usize, i64, Ix>>, pairs: bool) -> String {
+            let live: Vec<NodeIndex<Ix>> = acy.inner().node_indices().collect();
+            let nb = acy.inner().node_bound();
+            let mut s = $view(acy.inner());
+            s.push_str(&format!(" | order {}", list(acy.nodes_iter().map(|n| n.index()))));
+            let mut maxpos = 0usize;
+            let gp = |i: usize| match catch(|| acy.get_position(NodeIndex::new(i))) {
+                Some(p) => pv(p).to_string(),
+                None => "p".into(),
+            };
+            // positions of the live nodes only: what get_position answers for an absent index (a stale entry or the
+            // documented panic) is not determined by the property, a faithful copy need not reproduce it
+            let _ = nb;
+            for n in &live {
+                let p = gp(n.index());
+                if let Ok(k) = p.parse::<usize>() {
+                    maxpos = maxpos.max(k);
+                }
+                s.push_str(&format!(" {}:{}", n.index(), p));
+            }
+            s.push_str(" | at");
+            for k in 0..=maxpos + 2 {
+                s.push_str(&match acy.at_position(mkpos(k)) {
+                    Some(n) => format!(" {}", n.index()),
+                    None => " x".into(),
+                });
+            }
+            s.push_str(&format!(" | range {}", list(acy.range(..).map(|n| n.index()))));
+            if pairs {
+                s.push_str(" | valid");
+                for &a in &live {
+                    for &b in &live {
+                        s.push_str(match catch(|| acy.is_valid_edge(a, b)) {
+                            Some(true) => "1",
+                            Some(false) => "0",
+                            None => "p",
+                        });
+                    }
+                }
+            }
+            s
+        }
+
+        fn $dump<Ix: IndexType>(ctx: &mut Ctx, rng: &mut Rng, acy: &Acyclic<$G<usize, i64, Ix>>, fam: Fam) {
             let line = $view(acy.inner());
             ctx.line(&line, "ok");
             let live: Vec<NodeIndex<Ix>> = acy.inner().node_indices().collect();
@@ -91,7 +500,7 @@ macro_rules! vertical {
             }).collect();
             ctx.line("pos", &list(pos));
             // get_position of absent indices (stale entries / the documented panic)
-            let probes: Vec<usize> = (0..nb + 3).filter(|i| !live.iter().any(|n| n.index() == *i)).collect();
+            let probes: Vec<usize> = (0..(nb + 3).min(<Ix as IndexType>::max().index().saturating_add(1))).filter(|i| !live.iter().any(|n| n.index() == *i)).collect();
             if !probes.is_empty() {
                 let ans: Vec<String> = probes.iter().map(|&i| match catch(|| acy.get_position(NodeIndex::new(i))) {
                     Some(p) => pv(p).to_string(),
@@ -106,42 +515,510 @@ macro_rules! vertical {
             }).collect();
             ctx.line(&format!("at 0 {}", hi), &list(at));
             ctx.line("range u u", &list(acy.range(..).map(|n| n.index())));
-            for _ in 0..3 {
-                let lo = gen_bound(rng, hi);
-                let hb = gen_bound(rng, hi);
-                // an inverted range panics inside BTreeMap::range only when the map has a root
-                let inverted = match (&lo, &hb) {
-                    (Bound::Included(a) | Bound::Excluded(a), Bound::Included(b) | Bound::Excluded(b)) => pv(*a) > pv(*b) || (pv(*a) == pv(*b) && matches!(lo, Bound::Excluded(_)) && matches!(hb, Bound::Excluded(_))),
-                    _ => false,
+            for j in 0..3 {
+                let (lo, hb) = if j == 2 && !live.is_empty() && rng.chance(40) {
+                    // the one-element closed range at a live position, or the two bounds around it
+                    let n = *rng.pick(&live);
+                    let p = catch(|| acy.get_position(n)).unwrap_or_default();
+                    match rng.below(3) {
+                        0 => (Bound::Included(p), Bound::Included(p)),
+                        1 => (Bound::Included(p), Bound::Excluded(p)),
+                        _ => (Bound::Excluded(p), Bound::Included(p)),
+                    }
+                } else {
+                    (gen_bound(rng, hi), gen_bound(rng, hi))
                 };
-                if inverted && live.is_empty() {
+                // an inverted range panics inside BTreeMap::range only when the map has a root
+                if inverted(&lo, &hb) && live.is_empty() {
                     continue;
                 }
                 let r = catch(|| acy.range((lo, hb)).map(|n| n.index()).collect::<Vec<_>>());
                 ctx.line(&format!("range {} {}", bound_str(&lo), bound_str(&hb)), &match r { Some(v) => list(v), None => "panic".into() });
             }
-            let mut valid = Vec::new();
-            for &a in &live {
-                for &b in &live {
+            if fam != Fam::NCap {
+                let mut valid = Vec::new();
+                for &a in &live {
+                    for &b in &live {
+                        let r = catch(|| acy.is_valid_edge(a, b));
+                        valid.push(format!("{}:{}:{}", a.index(), b.index(), match r { Some(true) => "1", Some(false) => "0", None => "p" }));
+                    }
+                }
+                ctx.line("valid", &list(valid));
+            } else if live.len() >= 2 {
+                // a big graph: a sample of pairs (`validp`, judged like `valid`)
+                let mut valid = Vec::new();
+                for _ in 0..12 {
+                    let (a, b) = (*rng.pick(&live), *rng.pick(&live));
                     let r = catch(|| acy.is_valid_edge(a, b));
                     valid.push(format!("{}:{}:{}", a.index(), b.index(), match r { Some(true) => "1", Some(false) => "0", None => "p" }));
                 }
+                ctx.line("validp", &list(valid));
             }
-            ctx.line("valid", &list(valid));
+            // is_valid_edge with an absent endpoint (documented panic; stale order entries): on a clone, exact only
+            if rng.chance(15) && !probes.is_empty() {
+                let c = acy.clone();
+                let mut req = Vec::new();
+                let mut ans = Vec::new();
+                for _ in 0..3 {
+                    let x = *rng.pick(&probes);
+                    let (a, b) = if live.is_empty() || rng.chance(20) { (x, *rng.pick(&probes)) } else if rng.chance(50) { (x, rng.pick(&live).index()) } else { (rng.pick(&live).index(), x) };
+                    // one call per fresh clone: a panic in the middle of a search may leave scratch bits set
+                    let c2 = c.clone();
+                    let r = catch(|| c2.is_valid_edge(NodeIndex::new(a), NodeIndex::new(b)));
+                    req.push(format!("{}:{}", a, b));
+                    ans.push(match r { Some(true) => "1", Some(false) => "0", None => "p" }.to_string());
+                }
+                ctx.line(&format!("validx {}", req.join(",")), &ans.join(","));
+            }
         }
 
-        fn $run<Ix: IndexType>(ctx: &mut Ctx, rng: &mut Rng, case: u64, ixname: &str) {
+        /// the rest of the public surface as laws (`law <name> => ok | VIOLATED …`); never mutates `acy`
+        fn $laws<Ix: IndexType>(ctx: &mut Ctx, rng: &mut Rng, acy: &Acyclic<$G<usize, i64, Ix>>, other: Option<&Acyclic<$G<usize, i64, Ix>>>, fam: Fam) {
+            type G<Ix> = $G<usize, i64, Ix>;
+            type A<Ix> = Acyclic<$G<usize, i64, Ix>>;
+            let pairs = fam != Fam::NCap;
+            let inner: &G<Ix> = acy.inner();
+            let live: Vec<NodeIndex<Ix>> = inner.node_indices().collect();
+            let nb = inner.node_bound();
+            let lv: Vec<usize> = live.iter().map(|n| n.index()).collect();
+            let es: Vec<(usize, usize)> = inner.edge_references().map(|e| (e.source().index(), e.target().index())).collect();
+            let eids: Vec<EdgeIndex<Ix>> = inner.edge_references().map(|e| e.id()).collect();
+            let sample: Vec<NodeIndex<Ix>> = if live.len() <= 14 { live.clone() } else { (0..10).map(|_| *rng.pick(&live)).collect() };
+
+            // ---- the two iterators Acyclic itself hands out
+            ctx.line("law iter nodes_iter", &verdict_of(laws_it(|| acy.nodes_iter())));
+            {
+                let maxpos = live.iter().map(|&n| pv(acy.get_position(n))).max().unwrap_or(0);
+                let mut rs = vec![("range(..)".to_string(), laws_it(|| acy.range(..)))];
+                for _ in 0..3 {
+                    let (lo, hb) = (gen_bound(rng, maxpos + 1), gen_bound(rng, maxpos + 1));
+                    if inverted(&lo, &hb) {
+                        continue;
+                    }
+                    rs.push((format!("range({},{})", bound_str(&lo), bound_str(&hb)), laws_it(|| acy.range((lo, hb)))));
+                }
+                ctx.line("law iter range", &verdict_of(first_bad(rs)));
+                // every way of writing a range: the same interval of the order
+                let mut bad = None;
+                let order: Vec<(usize, usize)> = acy.nodes_iter().map(|n| (pv(acy.get_position(n)), n.index())).collect();
+                let want = |f: &dyn Fn(usize) -> bool| -> Vec<usize> { order.iter().filter(|(p, _)| f(*p)).map(|(_, n)| *n).collect() };
+                for &(p, n) in &order {
+                    let tp = mkpos(p);
+                    let got: Vec<usize> = acy.range(tp..=tp).map(|x| x.index()).collect();
+                    if got != vec![n] {
+                        bad = Some(format!("range({}..={}) = {:?} but at_position / get_position put node {} there", p, p, got, n));
+                    }
+                    if acy.at_position(tp) != Some(NodeIndex::new(n)) {
+                        bad = Some(format!("at_position(get_position({})) = {:?}", n, acy.at_position(tp).map(|x| x.index())));
+                    }
+                    let forms: Vec<(&str, Vec<usize>, Vec<usize>)> = vec![
+                        ("p..", acy.range(tp..).map(|x| x.index()).collect(), want(&|q| q >= p)),
+                        ("..p", acy.range(..tp).map(|x| x.index()).collect(), want(&|q| q < p)),
+                        ("..=p", acy.range(..=tp).map(|x| x.index()).collect(), want(&|q| q <= p)),
+                        ("p..p", acy.range(tp..tp).map(|x| x.index()).collect(), vec![]),
+                        ("(Excluded p, Unbounded)", acy.range((Bound::Excluded(tp), Bound::Unbounded)).map(|x| x.index()).collect(), want(&|q| q > p)),
+                    ];
+                    for (w, got, exp) in forms {
+                        if got != exp {
+                            bad = Some(format!("range({}) with p = {} yields {:?}, the order restricted to it is {:?}", w, p, got, exp));
+                        }
+                    }
+                }
+                if let (Some(&(p0, _)), Some(&(p1, _))) = (order.first(), order.last()) {
+                    let got: Vec<usize> = acy.range(mkpos(p0)..mkpos(p1)).map(|x| x.index()).collect();
+                    if got != want(&|q| q >= p0 && q < p1) {
+                        bad = Some(format!("range(first..last) yields {:?}", got));
+                    }
+                    let (b0, b1) = (mkpos(p0), mkpos(p1));
+                    let got: Vec<usize> = acy.range((Bound::Included(&b0), Bound::Included(&b1))).map(|x| x.index()).collect();
+                    if got != want(&|_| true) {
+                        bad = Some(format!("range((Included(&first), Included(&last))) yields {:?}", got));
+                    }
+                }
+                ctx.line("law range forms", &verdict_of(bad));
+            }
+
+            // ---- pass-through iterators: laws, and the same sequence as inner()'s
+            {
+                let mut rs: Vec<(String, Option<String>)> = Vec::new();
+                rs.push(("node_identifiers".into(), laws_de(|| <&A<Ix> as IntoNodeIdentifiers>::node_identifiers(acy))));
+                rs.push(("node_identifiers".into(), same("node_identifiers", <&A<Ix> as IntoNodeIdentifiers>::node_identifiers(acy).collect::<Vec<_>>(), inner.node_identifiers().collect::<Vec<_>>())));
+                rs.push(("node_references".into(), laws_de(|| <&A<Ix> as IntoNodeReferences>::node_references(acy))));
+                rs.push(("node_references".into(), same("node_references", <&A<Ix> as IntoNodeReferences>::node_references(acy).collect::<Vec<_>>(), inner.node_references().collect::<Vec<_>>())));
+                rs.push(("edge_references".into(), laws_de(|| <&A<Ix> as IntoEdgeReferences>::edge_references(acy))));
+                rs.push(("edge_references".into(), same("edge_references", <&A<Ix> as IntoEdgeReferences>::edge_references(acy).collect::<Vec<_>>(), inner.edge_references().collect::<Vec<_>>())));
+                rs.push(("exact".into(), $exact(acy)));
+                for &n in &sample {
+                    rs.push((format!("neighbors({})", n.index()), laws_it(|| <&A<Ix> as IntoNeighbors>::neighbors(acy, n))));
+                    rs.push(("neighbors".into(), same("neighbors", <&A<Ix> as IntoNeighbors>::neighbors(acy, n).collect::<Vec<_>>(), inner.neighbors(n).collect::<Vec<_>>())));
+                    rs.push((format!("edges({})", n.index()), laws_it(|| <&A<Ix> as IntoEdges>::edges(acy, n))));
+                    rs.push(("edges".into(), same("edges", <&A<Ix> as IntoEdges>::edges(acy, n).collect::<Vec<_>>(), inner.edges(n).collect::<Vec<_>>())));
+                    for d in [Direction::Outgoing, Direction::Incoming] {
+                        rs.push((format!("neighbors_directed({},{:?})", n.index(), d), laws_it(|| <&A<Ix> as IntoNeighborsDirected>::neighbors_directed(acy, n, d))));
+                        rs.push(("neighbors_directed".into(), same("neighbors_directed", <&A<Ix> as IntoNeighborsDirected>::neighbors_directed(acy, n, d).collect::<Vec<_>>(), inner.neighbors_directed(n, d).collect::<Vec<_>>())));
+                        rs.push((format!("edges_directed({},{:?})", n.index(), d), laws_it(|| <&A<Ix> as IntoEdgesDirected>::edges_directed(acy, n, d))));
+                        rs.push(("edges_directed".into(), same("edges_directed", <&A<Ix> as IntoEdgesDirected>::edges_directed(acy, n, d).collect::<Vec<_>>(), inner.edges_directed(n, d).collect::<Vec<_>>())));
+                    }
+                }
+                ctx.line("law iter passthrough", &verdict_of(first_bad(rs)));
+            }
+
+            // ---- pass-through traits: the answers of inner()
+            {
+                let mut rs: Vec<Option<String>> = Vec::new();
+                rs.push(same("node_count", NodeCount::node_count(acy), inner.node_count()));
+                rs.push(same("edge_count", EdgeCount::edge_count(acy), inner.edge_count()));
+                rs.push(same("node_bound", NodeIndexable::node_bound(acy), inner.node_bound()));
+                rs.push(same("edge_bound", EdgeIndexable::edge_bound(acy), EdgeIndexable::edge_bound(inner)));
+                rs.push(same("is_directed", GraphProp::is_directed(acy), true));
+                rs.push(same("Deref", std::ptr::eq::<G<Ix>>(&**acy, inner), true));
+                rs.push(same("Deref node_count", (**acy).node_count(), lv.len()));
+                for &n in &sample {
+                    // Index through Deref
+                    rs.push(same("acy[n]", acy[n], inner[n]));
+                }
+                if let Some(&e) = eids.first() {
+                    rs.push(same("acy[e]", acy[e], inner[e]));
+                }
+                let ixmax = <Ix as IndexType>::max().index();
+                for i in 0..(nb + 2).min(ixmax.saturating_add(1)) {
+                    let n = NodeIndex::<Ix>::new(i);
+                    rs.push(same("to_index", NodeIndexable::to_index(acy, n), i));
+                    rs.push(same("from_index", NodeIndexable::from_index(acy, i), n));
+                    rs.push(same("node_weight", DataMap::node_weight(acy, n).copied(), inner.node_weight(n).copied()));
+                }
+                let eb = EdgeIndexable::edge_bound(inner);
+                for i in 0..(eb + 2).min(ixmax.saturating_add(1)) {
+                    let e = EdgeIndex::<Ix>::new(i);
+                    rs.push(same("edge to_index", EdgeIndexable::to_index(acy, e), i));
+                    rs.push(same("edge from_index", EdgeIndexable::from_index(acy, i), e));
+                    rs.push(same("edge_weight", DataMap::edge_weight(acy, e).copied(), inner.edge_weight(e).copied()));
+                }
+                let m1 = GetAdjacencyMatrix::adjacency_matrix(acy);
+                let m2 = GetAdjacencyMatrix::adjacency_matrix(inner);
+                for &a in &sample {
+                    for &b in &sample {
+                        let adj = es.iter().any(|&(x, y)| x == a.index() && y == b.index());
+                        rs.push(same("is_adjacent", GetAdjacencyMatrix::is_adjacent(acy, &m1, a, b), adj));
+                        rs.push(same("is_adjacent (inner)", GetAdjacencyMatrix::is_adjacent(inner, &m2, a, b), adj));
+                    }
+                }
+                // Visitable: a map that holds every live index; reset_map clears it (also one made for a smaller / larger graph)
+                let mut vm = Visitable::visit_map(acy);
+                let r = catch(|| {
+                    let mut bad = None;
+                    for &n in &live {
+                        if vm.is_visited(&n) {
+                            bad = Some(format!("a fresh visit_map has {} visited", n.index()));
+                        }
+                        if !vm.visit(n) || !vm.is_visited(&n) || vm.visit(n) {
+                            bad = Some(format!("visit({}) on a fresh visit_map", n.index()));
+                        }
+                    }
+                    if let Some(&n) = live.first() {
+                        if !vm.unvisit(n) || vm.is_visited(&n) || vm.unvisit(n) {
+                            bad = Some(format!("unvisit({})", n.index()));
+                        }
+                        vm.visit(n);
+                    }
+                    Visitable::reset_map(acy, &mut vm);
+                    for &n in &live {
+                        if vm.is_visited(&n) {
+                            bad = Some(format!("after reset_map node {} is still visited", n.index()));
+                        }
+                    }
+                    let small: A<Ix> = Acyclic::new();
+                    let mut sm = Visitable::visit_map(&small);
+                    Visitable::reset_map(acy, &mut sm);
+                    for &n in &live {
+                        if sm.is_visited(&n) || !sm.visit(n) {
+                            bad = Some(format!("reset_map of a map made for an empty graph: node {} cannot be visited once", n.index()));
+                        }
+                    }
+                    Visitable::reset_map(&small, &mut vm);
+                    Visitable::reset_map(acy, &mut vm);
+                    for &n in &live {
+                        if vm.is_visited(&n) || !vm.visit(n) {
+                            bad = Some(format!("reset_map twice: node {} cannot be visited once", n.index()));
+                        }
+                    }
+                    bad
+                });
+                rs.push(match r { Some(b) => b, None => Some("visit_map / reset_map panicked".into()) });
+                ctx.line("law views", &verdict_of(rs.into_iter().flatten().next()));
+            }
+
+            // ---- Clone, clone_from, Default, Debug, into_inner
+            {
+                let me = $obs(acy, pairs);
+                let c = acy.clone();
+                let mut bad = if $obs(&c, pairs) != me { Some(format!("the clone is observed as [{}], the original as [{}]", $obs(&c, pairs), me)) } else { None };
+                if $view(&c.clone().into_inner()) != $view(inner) {
+                    bad = Some("into_inner() of a clone is not the inner graph".into());
+                }
+                // x == x.clone() where PartialEq exists (the error type, the positions)
+                for &n in &sample {
+                    let p = acy.get_position(n);
+                    if p != p.clone() || c.get_position(n) != p || p.cmp(&p) != std::cmp::Ordering::Equal {
+                        bad = Some("TopologicalPosition: clone / Eq / Ord disagree".into());
+                    }
+                }
+                ctx.line("law clone", &verdict_of(bad));
+
+                // clone_from onto an arbitrary prior value == assignment of a clone; the two are independent afterwards
+                let mut bad = None;
+                let mut priors: Vec<(&str, A<Ix>)> = vec![("new", Acyclic::new()), ("with_capacity", <A<Ix> as Create>::with_capacity(rng.below(40), rng.below(9)))];
+                if let Some(o) = other {
+                    priors.push(("the other object", o.clone()));
+                }
+                if !live.is_empty() && fam == Fam::Normal {
+                    // a mutated copy of the object itself: a node removed, a node added
+                    let mut m = acy.clone();
+                    m.remove_node(*rng.pick(&live));
+                    m.add_node(usize::MAX - 1);
+                    priors.push(("a mutated copy", m));
+                }
+                for (what, mut a) in priors {
+                    a.clone_from(acy);
+                    if $obs(&a, pairs) != me {
+                        bad = Some(format!("{}.clone_from(x) is observed as [{}], x as [{}]", what, $obs(&a, pairs), me));
+                    }
+                    if fam == Fam::Normal {
+                        // mutate the copy: the original must not move (and vice versa: the copy is dumped again by the next law block if it is kept)
+                        let n1 = a.add_node(usize::MAX - 2);
+                        if let Some(&x) = live.first() {
+                            let _ = catch(|| a.try_add_edge(n1, x, -5));
+                            a.remove_node(x);
+                        }
+                        if $obs(acy, pairs) != me {
+                            bad = Some(format!("mutating {}.clone_from(x) changed x", what));
+                        }
+                    }
+                }
+                ctx.line("law clone_from", &verdict_of(bad));
+
+                let mut bad = None;
+                let d: A<Ix> = Default::default();
+                let n: A<Ix> = Acyclic::new();
+                let w: A<Ix> = <A<Ix> as Create>::with_capacity(0, 0);
+                if $obs(&d, true) != $obs(&n, true) || $obs(&d, true) != $obs(&w, true) {
+                    bad = Some(format!("default() is [{}], new() is [{}], with_capacity(0, 0) is [{}]", $obs(&d, true), $obs(&n, true), $obs(&w, true)));
+                }
+                if d.nodes_iter().next().is_some() || d.inner().node_count() != 0 || d.at_position(TopologicalPosition::default()).is_some() {
+                    bad = Some("default() is not empty".into());
+                }
+                // a Default object is usable: the first node is found where get_position says
+                let mut d = d;
+                let n0 = d.add_node(7);
+                if d.at_position(d.get_position(n0)) != Some(n0) || d.nodes_iter().collect::<Vec<_>>() != vec![n0] {
+                    bad = Some("the first node of a Default Acyclic is not in the order".into());
+                }
+                ctx.line("law default", &verdict_of(bad));
+
+                let r = catch(|| {
+                    let a = format!("{:?}", acy);
+                    let b = format!("{:#?}", acy);
+                    let c = format!("{:?} {:?} {:?} {:#?}", AcyclicEdgeError::<NodeIndex<Ix>>::SelfLoop, AcyclicEdgeError::<NodeIndex<Ix>>::InvalidEdge, TopologicalPosition::default(), live.first().map(|&n| acy.get_position(n)));
+                    let d = format!("{:10?}|{:<4?}|{:.3?}", TopologicalPosition::default(), AcyclicEdgeError::<NodeIndex<Ix>>::SelfLoop, live.first().map(|&n| acy.get_position(n)));
+                    a.len() + b.len() + c.len() + d.len()
+                });
+                ctx.line("law debug", &verdict_of(match r { Some(_) => None, None => Some("Debug panicked".into()) }));
+            }
+
+            // ---- the error type: From<Cycle>, PartialEq, Clone
+            {
+                let mut bad = None;
+                // a Cycle value can only be obtained from the library: toposort of a 2-cycle
+                let mut cyc = DiGraph::<(), (), Ix>::with_capacity(2, 2);
+                let (a, b) = (cyc.add_node(()), cyc.add_node(()));
+                cyc.add_edge(a, b, ());
+                cyc.add_edge(b, a, ());
+                match toposort(&cyc, None) {
+                    Ok(_) => bad = Some("toposort accepted a 2-cycle".to_string()),
+                    Err(c) => {
+                        let n = c.node_id();
+                        let e: AcyclicEdgeError<NodeIndex<Ix>> = c.clone().into();
+                        if e != AcyclicEdgeError::Cycle(c.clone()) || e != e.clone() || e == AcyclicEdgeError::SelfLoop || e == AcyclicEdgeError::InvalidEdge {
+                            bad = Some("AcyclicEdgeError::from(Cycle) / PartialEq / Clone disagree".to_string());
+                        }
+                        if c != c.clone() || c.node_id() != n || !(n == a || n == b) {
+                            bad = Some("Cycle: clone / node_id disagree".to_string());
+                        }
+                        match Acyclic::try_from_graph(cyc.clone()) {
+                            Err(c2) if c2.node_id() == a || c2.node_id() == b => {}
+                            _ => bad = Some("try_from_graph of a 2-cycle does not report a node of the cycle".to_string()),
+                        }
+                    }
+                }
+                if AcyclicEdgeError::<NodeIndex<Ix>>::SelfLoop != AcyclicEdgeError::SelfLoop.clone() || AcyclicEdgeError::<NodeIndex<Ix>>::SelfLoop == AcyclicEdgeError::InvalidEdge {
+                    bad = Some("AcyclicEdgeError: PartialEq on the unit variants".to_string());
+                }
+                // the weight types do not matter: the same structure with `()` weights is wrapped into the same order
+                let unit = inner.map(|_, _| (), |_, _| ());
+                match (Acyclic::try_from_graph(unit), Acyclic::try_from_graph(inner.clone())) {
+                    (Ok(u), Ok(w)) => {
+                        if u.nodes_iter().collect::<Vec<_>>() != w.nodes_iter().collect::<Vec<_>>() || live.iter().any(|&n| u.get_position(n) != w.get_position(n)) {
+                            bad = Some("try_from_graph of the same structure with () weights yields another order".to_string());
+                        }
+                        if let Some(e) = topo_ok(&w.nodes_iter().map(|n| n.index()).collect::<Vec<_>>(), &lv, &es) {
+                            bad = Some(format!("try_from_graph(inner().clone()): {}", e));
+                        }
+                    }
+                    _ => bad = Some("try_from_graph refuses the inner graph of an Acyclic".to_string()),
+                }
+                ctx.line("law errors", &verdict_of(bad));
+            }
+
+            // ---- DataMapMut: weights are written through, the order does not move (on a clone; restored labels are not needed)
+            {
+                let mut c = acy.clone();
+                let before = $obs(acy, false);
+                let mut bad = None;
+                if let Some(&n) = live.first() {
+                    let old = inner[n];
+                    match DataMapMut::node_weight_mut(&mut c, n) {
+                        Some(w) => *w = old ^ 0x5555,
+                        None => bad = Some(format!("node_weight_mut({}) of a live node is None", n.index())),
+                    }
+                    if DataMap::node_weight(&c, n) != Some(&(old ^ 0x5555)) || c.inner()[n] != (old ^ 0x5555) {
+                        bad = Some("a write through node_weight_mut is not read back".to_string());
+                    }
+                    if let Some(w) = DataMapMut::node_weight_mut(&mut c, n) {
+                        *w = old;
+                    }
+                }
+                if let Some(&e) = eids.first() {
+                    let old = inner[e];
+                    match DataMapMut::edge_weight_mut(&mut c, e) {
+                        Some(w) => *w = old + 12345,
+                        None => bad = Some(format!("edge_weight_mut({}) of a live edge is None", e.index())),
+                    }
+                    if DataMap::edge_weight(&c, e) != Some(&(old + 12345)) || c.inner()[e] != old + 12345 {
+                        bad = Some("a write through edge_weight_mut is not read back".to_string());
+                    }
+                    if let Some(w) = DataMapMut::edge_weight_mut(&mut c, e) {
+                        *w = old;
+                    }
+                }
+                let ixmax = <Ix as IndexType>::max().index();
+                if DataMapMut::node_weight_mut(&mut c, NodeIndex::new((nb + 1).min(ixmax))).is_some() || DataMapMut::edge_weight_mut(&mut c, EdgeIndex::new((EdgeIndexable::edge_bound(inner) + 1).min(ixmax))).is_some() {
+                    bad = Some("weight_mut of an absent id is Some".to_string());
+                }
+                if $obs(&c, false) != before {
+                    bad = Some("writing and restoring weights through DataMapMut changed the observation".to_string());
+                }
+                ctx.line("law weight_mut", &verdict_of(bad));
+            }
+
+            // ---- petgraph's own algorithms, walkers and adaptors on &Acyclic<G>: judged, and equal to the same on inner()
+            {
+                let r = catch(|| {
+                    let mut bad: Option<String> = None;
+                    match toposort(acy, None) {
+                        Ok(o) => {
+                            let o: Vec<usize> = o.iter().map(|n| n.index()).collect();
+                            if let Some(e) = topo_ok(&o, &lv, &es) {
+                                bad = Some(format!("toposort(&acyclic): {}", e));
+                            }
+                        }
+                        Err(c) => bad = Some(format!("toposort(&acyclic) reports a cycle at {}", c.node_id().index())),
+                    }
+                    if is_cyclic_directed(acy) {
+                        bad = Some("is_cyclic_directed(&acyclic) = true".to_string());
+                    }
+                    if toposort(acy, None).ok() != toposort(inner, None).ok() {
+                        bad = Some("toposort(&acyclic) differs from toposort(inner())".to_string());
+                    }
+                    // a workspace: default, made for this graph, for an empty one, for a larger one
+                    let small: A<Ix> = Acyclic::new();
+                    let mut big = acy.clone();
+                    if nb + 6 < <Ix as IndexType>::max().index() {
+                        for _ in 0..5 {
+                            big.add_node(0);
+                        }
+                    }
+                    let mut spaces = vec![DfsSpace::default(), DfsSpace::new(acy), DfsSpace::new(&small), DfsSpace::new(&big)];
+                    for (i, sp) in spaces.iter_mut().enumerate() {
+                        for _ in 0..2 {
+                            match toposort(acy, Some(sp)) {
+                                Ok(o) => {
+                                    let o: Vec<usize> = o.iter().map(|n| n.index()).collect();
+                                    if let Some(e) = topo_ok(&o, &lv, &es) {
+                                        bad = Some(format!("toposort(&acyclic, workspace #{}): {}", i, e));
+                                    }
+                                }
+                                Err(_) => bad = Some(format!("toposort(&acyclic, workspace #{}) reports a cycle", i)),
+                            }
+                        }
+                    }
+                    let t: Vec<usize> = topo_walk(acy).iter().map(|n| n.index()).collect();
+                    if let Some(e) = topo_ok(&t, &lv, &es) {
+                        bad = Some(format!("Topo walker on &acyclic: {}", e));
+                    }
+                    if topo_walk(acy) != topo_walk(inner) {
+                        bad = Some("Topo walker on &acyclic differs from the one on inner()".to_string());
+                    }
+                    let rt: Vec<usize> = topo_walk(Reversed(acy)).iter().rev().map(|n| n.index()).collect();
+                    if let Some(e) = topo_ok(&rt, &lv, &es) {
+                        bad = Some(format!("Topo walker on Reversed(&acyclic), reversed: {}", e));
+                    }
+                    if toposort(Reversed(acy), None).ok() != toposort(Reversed(inner), None).ok() {
+                        bad = Some("toposort(Reversed(&acyclic)) differs from toposort(Reversed(inner()))".to_string());
+                    }
+                    let starts: Vec<NodeIndex<Ix>> = sample.iter().copied().take(5).collect();
+                    let k = 1 + rng.below(8);
+                    if walk_sig(acy, &starts) != walk_sig(inner, &starts) {
+                        bad = Some("Dfs / Bfs / DfsPostOrder on &acyclic differ from those on inner()".to_string());
+                    }
+                    if dfs_sig(acy, &starts, k) != dfs_sig(inner, &starts, k) {
+                        bad = Some("depth_first_search on &acyclic differs from the one on inner()".to_string());
+                    }
+                    if walk_sig(Reversed(acy), &starts) != walk_sig(Reversed(inner), &starts) || dfs_sig(Reversed(acy), &starts, k) != dfs_sig(Reversed(inner), &starts, k) {
+                        bad = Some("walkers on Reversed(&acyclic) differ from those on Reversed(inner())".to_string());
+                    }
+                    let keep = |n: NodeIndex<Ix>| n.index() % 3 != 1;
+                    let (nf1, nf2) = (NodeFiltered::from_fn(acy, keep), NodeFiltered::from_fn(inner, keep));
+                    let fstarts: Vec<NodeIndex<Ix>> = starts.iter().copied().filter(|&n| keep(n)).collect();
+                    if walk_sig(&nf1, &fstarts) != walk_sig(&nf2, &fstarts) || dfs_sig(&nf1, &fstarts, k) != dfs_sig(&nf2, &fstarts, k) {
+                        bad = Some("walkers on NodeFiltered(&acyclic) differ from those on NodeFiltered(inner())".to_string());
+                    }
+                    if toposort(&nf1, None).ok() != toposort(&nf2, None).ok() || toposort(&nf1, None).is_err() {
+                        bad = Some("toposort(NodeFiltered(&acyclic)) fails or differs from the one on inner()".to_string());
+                    }
+                    let (ef1, ef2) = (EdgeFiltered::from_fn(acy, |e| e.weight() % 2 == 0), EdgeFiltered::from_fn(inner, |e| e.weight() % 2 == 0));
+                    if walk_sig(&ef1, &starts) != walk_sig(&ef2, &starts) || dfs_sig(&ef1, &starts, k) != dfs_sig(&ef2, &starts, k) {
+                        bad = Some("walkers on EdgeFiltered(&acyclic) differ from those on EdgeFiltered(inner())".to_string());
+                    }
+                    bad
+                });
+                ctx.line("law algos", &verdict_of(match r { Some(b) => b, None => Some("an algorithm panicked on &acyclic".to_string()) }));
+            }
+        }
+
+        fn $run<Ix: IndexType>(ctx: &mut Ctx, rng: &mut Rng, case: u64, ixname: &str, fam: Fam) {
             type G<Ix> = $G<usize, i64, Ix>;
             let stable: bool = $stable;
-            ctx.raw(&format!("case {} kind={} ix={}", case, if stable { "s" } else { "g" }, ixname));
-            let max_live = if ctx.tier_thorough { 13 } else { 9 };
+            let ixmax = <Ix as IndexType>::max().index();
+            ctx.raw(&format!(
+                "case {} kind={} ix={} fam={} profile={}",
+                case,
+                if stable { "s" } else { "g" },
+                ixname,
+                match fam { Fam::Normal => "normal", Fam::ECap => "ecap", Fam::NCap => "ncap" },
+                if cfg!(debug_assertions) { "debug" } else { "release" }
+            ));
+            let max_live = match fam {
+                Fam::NCap => ixmax,
+                Fam::ECap => 6,
+                Fam::Normal => if ctx.tier_thorough { 13 } else { 9 },
+            };
             let mut next_label: usize;
             let mut next_w: i64 = 1000;
             // ---------------------------------------------------------------- construction
             let mut acy: Acyclic<G<Ix>>;
             let mut attempts = 0;
             loop {
-                let choice = if attempts >= 3 { 0 } else { rng.weighted(&[22, 8, 70]) };
+                let choice = if fam != Fam::Normal { 3 } else if attempts >= 3 { 0 } else { rng.weighted(&[16, 6, 8, 70]) };
                 attempts += 1;
                 match choice {
                     0 => {
@@ -151,35 +1028,87 @@ macro_rules! vertical {
                         break;
                     }
                     1 => {
-                        let (n, e) = (rng.below(6), rng.below(6));
+                        acy = Default::default();
+                        next_label = 0;
+                        ctx.line("new default", "ok");
+                        break;
+                    }
+                    2 => {
+                        // small, zero, and far larger than the graph will ever get
+                        let (n, e) = match rng.below(4) { 0 => (0, 0), 1 => (64 + rng.below(300), rng.below(500)), _ => (rng.below(6), rng.below(6)) };
                         acy = <Acyclic<G<Ix>> as Create>::with_capacity(n, e);
                         next_label = 0;
                         ctx.line(&format!("withcap {} {}", n, e), "ok");
                         break;
                     }
                     _ => {
-                        // mostly acyclic families, some cyclic / with self-loops / parallel edges
-                        let fam = *rng.pick(&[4usize, 4, 4, 14, 14, 3, 3, 9, 13, 6, 7, 7, 0, 1, 2, 8, 10, 11, 5, 15, 12]);
-                        let o = if rng.chance(30) { GenOpts::multi(max_live, 1, 9) } else { GenOpts::simple(max_live) };
-                        let mut ag = gen_family(rng, true, fam, o);
-                        if ag.edges.len() > 40 {
-                            ag.edges.truncate(40);
-                        }
-                        if rng.chance(25) {
-                            // orient every edge along a hidden order: dense DAGs from cyclic families
-                            let p = random_perm(rng, ag.n);
-                            for e in ag.edges.iter_mut() {
-                                if p[e.0] > p[e.1] {
-                                    *e = (e.1, e.0, e.2);
+                        let mut ag = match fam {
+                            Fam::ECap => {
+                                // 3..6 nodes, the inner graph filled with parallel edges up to (almost) the edge limit of the index type
+                                let n = 3 + rng.below(4);
+                                let p = random_perm(rng, n);
+                                let m = ixmax - rng.below(7);
+                                let mut edges = Vec::new();
+                                for _ in 0..m {
+                                    let (a, b) = (rng.below(n), rng.below(n));
+                                    if a != b {
+                                        edges.push(if p[a] < p[b] { (a, b, rng.range(1, 9)) } else { (b, a, rng.range(1, 9)) });
+                                    }
                                 }
+                                while edges.len() < m {
+                                    let a = rng.below(n - 1);
+                                    let b = a + 1 + rng.below(n - 1 - a);
+                                    edges.push(if p[a] < p[b] { (a, b, 1) } else { (b, a, 1) });
+                                }
+                                AG { directed: true, n, edges }
                             }
-                            if !o.loops {
-                                ag.edges.retain(|e| e.0 != e.1);
+                            Fam::NCap => {
+                                // (almost) as many nodes as the index type admits, a sparse DAG on them
+                                let n = ixmax - rng.below(4);
+                                let p = random_perm(rng, n);
+                                let mut edges = Vec::new();
+                                for _ in 0..(20 + rng.below(40)) {
+                                    let (a, b) = (rng.below(n), rng.below(n));
+                                    if a != b {
+                                        edges.push(if p[a] < p[b] { (a, b, 1) } else { (b, a, 1) });
+                                    }
+                                }
+                                AG { directed: true, n, edges }
+                            }
+                            Fam::Normal => {
+                                // mostly acyclic families, some cyclic / with self-loops / parallel edges
+                                let famn = *rng.pick(&[4usize, 4, 4, 14, 14, 3, 3, 9, 13, 6, 7, 7, 0, 1, 2, 8, 10, 11, 5, 15, 12]);
+                                let o = if rng.chance(30) { GenOpts::multi(max_live, 1, 9) } else { GenOpts::simple(max_live) };
+                                let mut ag = gen_family(rng, true, famn, o);
+                                if ag.edges.len() > 40 {
+                                    ag.edges.truncate(40);
+                                }
+                                if rng.chance(25) {
+                                    // orient every edge along a hidden order: dense DAGs from cyclic families
+                                    let p = random_perm(rng, ag.n);
+                                    for e in ag.edges.iter_mut() {
+                                        if p[e.0] > p[e.1] {
+                                            *e = (e.1, e.0, e.2);
+                                        }
+                                    }
+                                    if !o.loops {
+                                        ag.edges.retain(|e| e.0 != e.1);
+                                    }
+                                }
+                                ag
+                            }
+                        };
+                        // corners: the empty graph (a StableGraph: possibly nothing but vacancies), a single node (possibly with a self-loop)
+                        if fam == Fam::Normal {
+                            match rng.below(100) {
+                                0..=5 => ag = AG { directed: true, n: 0, edges: vec![] },
+                                6..=10 => ag = AG { directed: true, n: 1, edges: if rng.chance(25) { vec![(0, 0, 1)] } else { vec![] } },
+                                _ => {}
                             }
                         }
                         let no = random_perm(rng, ag.n);
                         let eo = random_perm(rng, ag.edges.len());
-                        let g: G<Ix> = $mk::<Ix>(rng, &ag, &no, &eo);
+                        let g: G<Ix> = $mk::<Ix>(rng, &ag, &no, &eo, fam);
                         ctx.line(&$view(&g), "ok");
                         let via = if rng.chance(50) { "tfg" } else { "tf" };
                         // what the graph line cannot show of a StableGraph: the order of its free lists
@@ -206,33 +1135,49 @@ macro_rules! vertical {
                     }
                 }
             }
-            $dump(ctx, rng, &acy);
+            $dump(ctx, rng, &acy, fam);
+            if rng.chance(30) && catch(|| $laws(ctx, rng, &acy, None, fam)).is_none() {
+                ctx.line("law block", "VIOLATED a call of the public API panicked inside the law checks");
+            }
             // ---------------------------------------------------------------- history
-            let nops = if ctx.tier_thorough { 10 + rng.below(60) } else { 6 + rng.below(34) };
+            let nops = match fam {
+                Fam::NCap => 4 + rng.below(5),
+                Fam::ECap => 8 + rng.below(14),
+                Fam::Normal => if ctx.tier_thorough { 10 + rng.below(60) } else { 6 + rng.below(34) },
+            };
             let mut removed: Vec<usize> = Vec::new();
-            for _ in 0..nops {
+            let mut other: Option<Acyclic<G<Ix>>> = None;
+            for opno in 0..nops {
                 let live: Vec<NodeIndex<Ix>> = acy.inner().node_indices().collect();
                 let nb = acy.inner().node_bound();
                 let l = live.len();
                 let ec = acy.inner().edge_count();
-                let w_add = if l >= max_live { 0 } else if l < 4 { 40 } else { 16 };
-                let w_edge = if l >= 2 { if ec >= 60 { 5 } else { 50 } } else { 6 };
+                let w_add = if l >= max_live && fam != Fam::NCap { 0 } else if l < 4 { 40 } else { 16 };
+                let w_edge = if l >= 2 { if ec >= 60 && fam == Fam::Normal { 5 } else { 50 } } else { 6 };
                 let w_re = if ec > 0 { 9 } else { 2 };
-                let w_rn = if l > 0 { 8 } else { 3 };
-                let op = rng.weighted(&[w_add, w_edge, w_re, w_rn, 2]);
+                let w_rn = if l > 0 { if fam == Fam::ECap { 2 } else { 8 } } else { 3 };
+                let w_two = if fam == Fam::NCap { 0 } else { 5 };
+                let op = rng.weighted(&[if fam == Fam::NCap { 60 } else { w_add }, w_edge, w_re, w_rn, 2, w_two]);
                 match op {
                     0 => {
                         let lab = next_label;
                         next_label += 1;
-                        let n = <Acyclic<G<Ix>> as Build>::add_node(&mut acy, lab);
-                        ctx.line(&format!("add_node {}", lab), &n.index().to_string());
+                        // at the node limit of the index type the inner graph's add_node panics (documented; it may leave the
+                        // inner graph in an unspecified state): near the limit the call is tried on a clone first
+                        let fits = ixmax == usize::MAX || l + 2 < ixmax || catch(|| { let mut c = acy.clone(); <Acyclic<G<Ix>> as Build>::add_node(&mut c, lab); }).is_some();
+                        if fits {
+                            let n = <Acyclic<G<Ix>> as Build>::add_node(&mut acy, lab);
+                            ctx.line(&format!("add_node {}", lab), &n.index().to_string());
+                        } else {
+                            ctx.line(&format!("add_node {}", lab), "panic");
+                        }
                     }
                     1 => {
                         // endpoints
                         let absent = |rng: &mut Rng| -> usize {
-                            if !removed.is_empty() && rng.chance(50) { *rng.pick(&removed) } else { nb + rng.below(3) }
+                            if !removed.is_empty() && rng.chance(50) { *rng.pick(&removed) } else { (nb + rng.below(3)).min(ixmax) }
                         };
-                        let posof = |n: NodeIndex<Ix>| pv(acy.get_position(n));
+                        let posof = |n: NodeIndex<Ix>| catch(|| pv(acy.get_position(n))).unwrap_or(0);
                         let (a, b): (usize, usize) = if l == 0 {
                             (absent(rng), absent(rng))
                         } else {
@@ -264,12 +1209,18 @@ macro_rules! vertical {
                                     }
                                 }
                                 _ => {
-                                    let x = rng.pick(&live).index();
-                                    let mut y = rng.pick(&live).index();
-                                    if y == x && rng.chance(85) {
-                                        y = rng.pick(&live).index();
+                                    // any pair; sometimes a pair that already has an edge (a parallel edge / the edge update_edge finds)
+                                    if ec > 0 && rng.chance(30) {
+                                        let es: Vec<(usize, usize)> = acy.inner().edge_references().map(|e| (e.source().index(), e.target().index())).collect();
+                                        *rng.pick(&es)
+                                    } else {
+                                        let x = rng.pick(&live).index();
+                                        let mut y = rng.pick(&live).index();
+                                        if y == x && rng.chance(85) {
+                                            y = rng.pick(&live).index();
+                                        }
+                                        (x, y)
                                     }
-                                    (x, y)
                                 }
                             }
                         };
@@ -278,17 +1229,19 @@ macro_rules! vertical {
                         let is_live = |i: usize| live.iter().any(|n| n.index() == i);
                         let both = is_live(a) && is_live(b);
                         let (na, nbx) = (NodeIndex::<Ix>::new(a), NodeIndex::<Ix>::new(b));
+                        // is the inner graph full (its add_edge panics at the index limit)?  observed on a clone of inner()
+                        let full = both && ixmax != usize::MAX && ec + 3 >= ixmax && catch(|| { let mut c = acy.inner().clone(); c.add_edge(na, nbx, w); }).is_none();
                         let variant = rng.weighted(&[45, 25, 15, 15]);
                         let name = ["try_add_edge", "try_update_edge", "add_edge", "update_edge"][variant];
                         let mut scratch;
-                        let target: &mut Acyclic<G<Ix>> = if both { &mut acy } else { scratch = acy.clone(); &mut scratch };
+                        let target: &mut Acyclic<G<Ix>> = if both && !full { &mut acy } else { scratch = acy.clone(); &mut scratch };
                         let ans = match variant {
                             0 => catch(|| target.try_add_edge(na, nbx, w)).map(|r| match r { Ok(e) => format!("ok {}", e.index()), Err(e) => show_err(e) }),
                             1 => catch(|| target.try_update_edge(na, nbx, w)).map(|r| match r { Ok(e) => format!("ok {}", e.index()), Err(e) => show_err(e) }),
                             2 => catch(|| <Acyclic<G<Ix>> as Build>::add_edge(target, na, nbx, w)).map(|r| match r { Some(e) => format!("some {}", e.index()), None => "none".into() }),
                             _ => catch(|| <Acyclic<G<Ix>> as Build>::update_edge(target, na, nbx, w)).map(|e| format!("ok {}", e.index())),
                         };
-                        ctx.line(&format!("{} {} {} {}", name, a, b, w), &ans.unwrap_or_else(|| "panic".into()));
+                        ctx.line(&format!("{} {} {} {}{}", name, a, b, w, if full { " full" } else { "" }), &ans.unwrap_or_else(|| "panic".into()));
                     }
                     2 => {
                         let ids: Vec<usize> = acy.inner().edge_references().map(|e| e.id().index()).collect();
@@ -296,7 +1249,7 @@ macro_rules! vertical {
                             let eb = ids.iter().max().map(|m| m + 1).unwrap_or(0);
                             // an absent id: beyond the bound, or (stable) a vacant one below it
                             let vac: Vec<usize> = (0..eb).filter(|i| !ids.contains(i)).collect();
-                            if !vac.is_empty() && rng.chance(60) { *rng.pick(&vac) } else { eb + rng.below(3) }
+                            if !vac.is_empty() && rng.chance(60) { *rng.pick(&vac) } else { (eb + rng.below(3)).min(ixmax) }
                         } else {
                             *rng.pick(&ids)
                         };
@@ -305,7 +1258,7 @@ macro_rules! vertical {
                     }
                     3 => {
                         let n = if l == 0 || rng.chance(22) {
-                            if !removed.is_empty() && rng.chance(55) { *rng.pick(&removed) } else { nb + rng.below(3) }
+                            if !removed.is_empty() && rng.chance(55) { *rng.pick(&removed) } else { (nb + rng.below(3)).min(ixmax) }
                         } else if !stable && l >= 2 && rng.chance(70) {
                             // a non-last node of a DiGraph: the last node is renumbered
                             live[rng.below(l - 1)].index()
@@ -323,28 +1276,98 @@ macro_rules! vertical {
                         ctx.line(&format!("remove_node {}", n), &match r { Some(Some(w)) => format!("some {}", w), Some(None) => "none".into(), None => "panic".into() });
                         // a second removal of the same index right away, sometimes
                         if rng.chance(25) {
-                            $dump(ctx, rng, &acy);
+                            $dump(ctx, rng, &acy, fam);
                             let r = catch(|| acy.remove_node(NodeIndex::new(n)));
                             ctx.line(&format!("remove_node {}", n), &match r { Some(Some(w)) => format!("some {}", w), Some(None) => "none".into(), None => "panic".into() });
                         }
                     }
-                    _ => {
+                    4 => {
                         acy = acy.clone();
                         ctx.line("clone", "ok");
                     }
+                    _ => {
+                        // the second object: snap / swap / clone_from in either direction / mem::take
+                        match (other.is_some(), rng.below(10)) {
+                            (false, 0) | (true, 0) => {
+                                let old = std::mem::take(&mut acy);
+                                other = Some(old);
+                                ctx.line("take", "ok");
+                            }
+                            (false, _) | (true, 1) => {
+                                other = Some(acy.clone());
+                                ctx.line("snap", "ok");
+                            }
+                            (true, 2..=5) => {
+                                std::mem::swap(&mut acy, other.as_mut().unwrap());
+                                ctx.line("swap", "ok");
+                            }
+                            (true, 6 | 7) => {
+                                acy.clone_from(other.as_ref().unwrap());
+                                ctx.line("clonefrom in", "ok");
+                            }
+                            (true, _) => {
+                                other.as_mut().unwrap().clone_from(&acy);
+                                ctx.line("clonefrom out", "ok");
+                            }
+                        }
+                    }
                 }
-                $dump(ctx, rng, &acy);
+                $dump(ctx, rng, &acy, fam);
+                if (rng.chance(if fam == Fam::Normal { 12 } else { 25 }) || opno + 1 == nops) && catch(|| $laws(ctx, rng, &acy, other.as_ref(), fam)).is_none() {
+                    ctx.line("law block", "VIOLATED a call of the public API panicked inside the law checks");
+                }
             }
         }
     };
 }
 
-fn mk_graph<Ix: IndexType>(_rng: &mut Rng, ag: &AG, no: &[usize], eo: &[usize]) -> DiGraph<usize, i64, Ix> {
+/// trailing vacancies: `k` more dummy nodes beyond the last live one, then every dummy is removed in a random
+/// order (so the free list hands the vacant slots out in any order, not only ascending)
+fn trailing_vacancies<Ix: IndexType>(rng: &mut Rng, g: &mut StableDiGraph<usize, i64, Ix>, k: usize) {
+    if k == 0 {
+        return;
+    }
+    let bound = g.node_bound();
+    let mut dummies = Vec::new();
+    let mut beyond = 0;
+    let mut guard = 0;
+    while beyond < k && guard < 40 {
+        let d = g.add_node(usize::MAX);
+        if d.index() >= bound {
+            beyond += 1;
+        }
+        dummies.push(d);
+        guard += 1;
+    }
+    rng.shuffle(&mut dummies);
+    for d in dummies {
+        g.remove_node(d);
+    }
+}
+
+fn mk_graph<Ix: IndexType>(_rng: &mut Rng, ag: &AG, no: &[usize], eo: &[usize], _fam: Fam) -> DiGraph<usize, i64, Ix> {
     enc_graph::<Directed, Ix>(ag, no, eo).g
 }
-fn mk_stable<Ix: IndexType>(rng: &mut Rng, ag: &AG, no: &[usize], eo: &[usize]) -> StableDiGraph<usize, i64, Ix> {
+fn mk_stable<Ix: IndexType>(rng: &mut Rng, ag: &AG, no: &[usize], eo: &[usize], fam: Fam) -> StableDiGraph<usize, i64, Ix> {
+    if fam != Fam::Normal {
+        // at the limit of the index type there is no room for dummies (and no free slot may be left over)
+        let mut g = enc_stable::<Directed, Ix>(rng, ag, no, eo, false).g;
+        if fam == Fam::ECap && rng.chance(50) {
+            // free a few edge slots again: full in slots, not in live edges
+            let ids: Vec<EdgeIndex<Ix>> = g.edge_indices().collect();
+            for _ in 0..1 + rng.below(3) {
+                g.remove_edge(*rng.pick(&ids));
+            }
+        }
+        return g;
+    }
     let holes = rng.chance(70);
-    enc_stable::<Directed, Ix>(rng, ag, no, eo, holes).g
+    let mut g = enc_stable::<Directed, Ix>(rng, ag, no, eo, holes).g;
+    if rng.chance(45) {
+        let k = 1 + rng.below(3);
+        trailing_vacancies(rng, &mut g, k);
+    }
+    g
 }
 
 fn free_graph<Ix: IndexType>(_g: &DiGraph<usize, i64, Ix>) -> String {
@@ -355,9 +1378,10 @@ fn free_graph<Ix: IndexType>(_g: &DiGraph<usize, i64, Ix>) -> String {
 /// hand out the vacant slots in free-list order and then fresh slots `len, len + 1, …`.  Reported as
 /// ` fn=<free node slots> fe=<free edge slots> nl=<node slots> el=<edge slots>` (a trailing run of
 /// vacant slots that is reused in ascending order is indistinguishable from fresh slots, and
-/// behaves the same).
+/// behaves the same).  At the limit of the index type `add_node` / `add_edge` panic: then every slot up to
+/// the limit exists.
 fn free_stable<Ix: IndexType>(g: &StableDiGraph<usize, i64, Ix>) -> String {
-    fn split(seq: &[usize], bound: usize) -> (Vec<usize>, usize) {
+    fn split(seq: &[usize], bound: usize, limit: usize) -> (Vec<usize>, usize) {
         // the first k such that seq[k..] is consecutive, above everything before it and >= bound
         for k in 0..seq.len() {
             let tail_ok = seq[k..].windows(2).all(|w| w[1] == w[0] + 1);
@@ -366,31 +1390,62 @@ fn free_stable<Ix: IndexType>(g: &StableDiGraph<usize, i64, Ix>) -> String {
                 return (seq[..k].to_vec(), seq[k]);
             }
         }
-        (seq.to_vec(), usize::MAX)
+        (seq.to_vec(), limit)
     }
     let mut c = g.clone();
     let nb = g.node_bound();
     let eb = g.edge_indices().map(|e| e.index() + 1).max().unwrap_or(0);
+    let limit = <Ix as IndexType>::max().index();
     let vac_n = 64usize;
-    let nseq: Vec<usize> = (0..vac_n).map(|_| c.add_node(usize::MAX).index()).collect();
-    let x = NodeIndex::<Ix>::new(nseq[0]);
-    let eseq: Vec<usize> = (0..vac_n).map(|_| c.add_edge(x, x, 0).index()).collect();
-    let (fnl, nl) = split(&nseq, nb);
-    let (fel, el) = split(&eseq, eb);
+    let mut nseq: Vec<usize> = Vec::new();
+    for _ in 0..vac_n {
+        match catch(|| c.add_node(usize::MAX).index()) {
+            Some(i) => nseq.push(i),
+            None => break,
+        }
+    }
+    let mut eseq: Vec<usize> = Vec::new();
+    if let Some(x) = c.node_indices().next() {
+        for _ in 0..vac_n {
+            match catch(|| c.add_edge(x, x, 0).index()) {
+                Some(i) => eseq.push(i),
+                None => break,
+            }
+        }
+    }
+    let (fnl, nl) = split(&nseq, nb, limit);
+    let (fel, el) = split(&eseq, eb, limit);
     format!(" fn={} fe={} nl={} el={}", list(fnl.iter()), list(fel.iter()), nl, el)
 }
 
-vertical!(run_g, view_g, dump_g, DiGraph, false, mk_graph, free_graph);
-vertical!(run_s, view_s, dump_s, StableDiGraph, true, mk_stable, free_stable);
+/// `ExactSizeIterator` laws of the pass-through iterators that have them (`Graph` only)
+fn exact_graph<Ix: IndexType>(acy: &Acyclic<DiGraph<usize, i64, Ix>>) -> Option<String> {
+    type A<Ix> = Acyclic<DiGraph<usize, i64, Ix>>;
+    laws_exact(|| <&A<Ix> as IntoNodeIdentifiers>::node_identifiers(acy))
+        .or_else(|| laws_exact(|| <&A<Ix> as IntoNodeReferences>::node_references(acy)))
+        .or_else(|| laws_exact(|| <&A<Ix> as IntoEdgeReferences>::edge_references(acy)))
+}
+fn exact_stable<Ix: IndexType>(_acy: &Acyclic<StableDiGraph<usize, i64, Ix>>) -> Option<String> {
+    None
+}
+
+vertical!(run_g, view_g, dump_g, obs_g, laws_g, DiGraph, false, mk_graph, free_graph, exact_graph);
+vertical!(run_s, view_s, dump_s, obs_s, laws_s, StableDiGraph, true, mk_stable, free_stable, exact_stable);
 
 pub fn run(ctx: &mut Ctx, case: u64) {
     let mut rng = Rng::for_case(ctx.seed, "C14", case);
     let stable = rng.chance(50);
-    let w8 = rng.chance(35);
-    match (stable, w8) {
-        (false, false) => run_g::<u32>(ctx, &mut rng, case, "u32"),
-        (false, true) => run_g::<u8>(ctx, &mut rng, case, "u8"),
-        (true, false) => run_s::<u32>(ctx, &mut rng, case, "u32"),
-        (true, true) => run_s::<u8>(ctx, &mut rng, case, "u8"),
+    // the two capacity families exist for u8 only (the limit of u16 needs 65535 nodes / edges)
+    let fam = match rng.below(100) { 0..=2 => Fam::ECap, 3 => Fam::NCap, _ => Fam::Normal };
+    let ix = if fam != Fam::Normal { 0 } else { rng.weighted(&[30, 12, 43, 15]) };
+    match (stable, ix) {
+        (false, 0) => run_g::<u8>(ctx, &mut rng, case, "u8", fam),
+        (false, 1) => run_g::<u16>(ctx, &mut rng, case, "u16", fam),
+        (false, 2) => run_g::<u32>(ctx, &mut rng, case, "u32", fam),
+        (false, _) => run_g::<usize>(ctx, &mut rng, case, "usize", fam),
+        (true, 0) => run_s::<u8>(ctx, &mut rng, case, "u8", fam),
+        (true, 1) => run_s::<u16>(ctx, &mut rng, case, "u16", fam),
+        (true, 2) => run_s::<u32>(ctx, &mut rng, case, "u32", fam),
+        (true, _) => run_s::<usize>(ctx, &mut rng, case, "usize", fam),
     }
 }
